@@ -47,8 +47,8 @@ PROFILES = {
     # composition (C05): always known compositions, successful
     "composition": {
         "ops": {"add": 2, "remove": 1, "aspirate": 1, "dispense": 3, "transfer": 8, "distribute": 3, "evo_dispense": 1},
-        "aims": {"ok": 12, "zero": 1.5, "exact": 0.5},
-        "fault_rate": 0.05,
+        "aims": {"ok": 12, "zero": 1.5, "exact": 0.5, "beyond": 1.0},  # a refused element now and then: what was applied before it stays consistent
+        "fault_rate": 0.1,
         "comps": 1.0,
         "stop_on_error": False,
         "wl_kwargs": 0.0,
